@@ -30,13 +30,7 @@ structure WireInv (s : Sys) : Prop where
   /-- … pairwise disjoint and without repetition -/
   nodup : (sentPkts s.wire ++ (cur s).infl ++ s.queue ++ s.failed).Nodup
 
-macro "wire_pre" hl:ident hw:ident s:ident t:ident : tactic => `(tactic| (
-  have h1t := ($hl).crit_owner $t
-  have hd := ($hl).depth_ok
-  have hz := ($hl).net_zero $t
-  have hn := ($hl).nt_slot
-  have hc1 := @cur_of_owner $s $t
-  have hc0 := @cur_of_free $s
+macro "wire_pre" hw:ident : tactic => `(tactic| (
   have w2 := ($hw).needs_open
   have w3 := ($hw).rel_closed
   have w3x := ($hw).xrel_closed
@@ -48,49 +42,79 @@ macro "wire_pre" hl:ident hw:ident s:ident t:ident : tactic => `(tactic| (
 
 theorem wire_step_wire_eq (cfg : Cfg) (s s' : Sys) (t : Tid) (hl : LockInv s) (hw : WireInv s)
     (hs : step cfg s t = some s') : s'.wire = frames (sentPkts s'.wire) ++ (cur s').half := by
-  wire_pre hl hw s t
+  have h1t := hl.crit_owner t
+  have hd := hl.depth_ok
+  have hz := hl.net_zero t
+  have hn := hl.nt_slot
+  wire_pre hw
   have w1 := hw.wire_eq
   step_cases hs hpc htd
+  all_goals cur_simp s t h1t hd hpc
   all_goals
-    grind [cur, upd, Pc.crit, UPc.crit, NPc.crit, Pc.half, canAcq, ownerAfterRel, sentPkts_snoc0,
+    grind [Pc.half, sentPkts_snoc0,
       sentPkts_snoc1, frames_snoc]
 
 theorem wire_step_needs_open (cfg : Cfg) (s s' : Sys) (t : Tid) (hl : LockInv s) (hw : WireInv s)
     (hs : step cfg s t = some s') : (cur s').needsOpen = true → s'.sockOpen = true := by
-  wire_pre hl hw s t
+  have h1t := hl.crit_owner t
+  have hd := hl.depth_ok
+  have hz := hl.net_zero t
+  have hn := hl.nt_slot
+  wire_pre hw
   step_cases hs hpc htd
+  all_goals cur_simp s t h1t hd hpc
   all_goals
-    grind [cur, upd, Pc.crit, UPc.crit, NPc.crit, Pc.needsOpen, canAcq, ownerAfterRel]
+    grind [Pc.needsOpen]
 
 theorem wire_step_rel_closed (cfg : Cfg) (s s' : Sys) (t : Tid) (hl : LockInv s) (hw : WireInv s)
     (hs : step cfg s t = some s') :
     (∀ c, cur s' = .user (.dRel c) → s'.sockOpen = false) ∧
     (∀ n, cur s' = .net .xRel n → s'.sockOpen = false) := by
-  wire_pre hl hw s t
+  have h1t := hl.crit_owner t
+  have hd := hl.depth_ok
+  have hz := hl.net_zero t
+  have hn := hl.nt_slot
+  wire_pre hw
   step_cases hs hpc htd
+  all_goals cur_simp s t h1t hd hpc
   all_goals refine ⟨?_, ?_⟩
-  all_goals grind [cur, upd, Pc.crit, UPc.crit, NPc.crit, canAcq, ownerAfterRel]
+  all_goals grind
 
 theorem wire_step_past_sti (cfg : Cfg) (s s' : Sys) (t : Tid) (hl : LockInv s) (hw : WireInv s)
     (hs : step cfg s t = some s') :
     (cur s').pastSti = true → s'.interrupt = true ∨ s'.ntSlot = false := by
-  wire_pre hl hw s t
+  have h1t := hl.crit_owner t
+  have hd := hl.depth_ok
+  have hz := hl.net_zero t
+  have hn := hl.nt_slot
+  wire_pre hw
   step_cases hs hpc htd
-  all_goals grind [cur, upd, Pc.crit, UPc.crit, NPc.crit, Pc.pastSti, canAcq, ownerAfterRel]
+  all_goals cur_simp s t h1t hd hpc
+  all_goals grind [Pc.pastSti]
 
 theorem wire_step_closed_int (cfg : Cfg) (s s' : Sys) (t : Tid) (hl : LockInv s) (hw : WireInv s)
     (hs : step cfg s t = some s') :
     s'.sockOpen = false → s'.interrupt = true ∨ s'.ntSlot = false := by
-  wire_pre hl hw s t
+  have h1t := hl.crit_owner t
+  have hd := hl.depth_ok
+  have hz := hl.net_zero t
+  have hn := hl.nt_slot
+  wire_pre hw
   step_cases hs hpc htd
-  all_goals grind [cur, upd, Pc.crit, UPc.crit, NPc.crit, Pc.pastSti, canAcq, ownerAfterRel]
+  all_goals cur_simp s t h1t hd hpc
+  all_goals grind [Pc.pastSti]
 
 theorem wire_step_int_closed (cfg : Cfg) (s s' : Sys) (t : Tid) (hl : LockInv s) (hw : WireInv s)
     (hs : step cfg s t = some s') :
     s'.interrupt = true → s'.sockOpen = false ∨ (cur s').pastSti = true := by
-  wire_pre hl hw s t
+  have h1t := hl.crit_owner t
+  have hd := hl.depth_ok
+  have hz := hl.net_zero t
+  have hn := hl.nt_slot
+  wire_pre hw
   step_cases hs hpc htd
-  all_goals grind [cur, upd, Pc.crit, UPc.crit, NPc.crit, Pc.pastSti, canAcq, ownerAfterRel]
+  all_goals cur_simp s t h1t hd hpc
+  all_goals grind [Pc.pastSti]
 
 theorem wire_step_failed_closed (cfg : Cfg) (s s' : Sys) (t : Tid) (hl : LockInv s)
     (hw : WireInv s) (hs : step cfg s t = some s') : s'.failed ≠ [] → s'.sockOpen = false := by
@@ -101,40 +125,60 @@ theorem wire_step_failed_closed (cfg : Cfg) (s s' : Sys) (t : Tid) (hl : LockInv
 
 theorem wire_step_pop_ok (cfg : Cfg) (s s' : Sys) (t : Tid) (hl : LockInv s) (hw : WireInv s)
     (hs : step cfg s t = some s') : (cur s').atPop = true → s'.queue ≠ [] := by
-  wire_pre hl hw s t
+  have h1t := hl.crit_owner t
+  have hd := hl.depth_ok
+  have hz := hl.net_zero t
+  have hn := hl.nt_slot
+  wire_pre hw
   step_cases hs hpc htd
+  all_goals cur_simp s t h1t hd hpc
   all_goals first
-    | grind [cur, upd, Pc.crit, UPc.crit, NPc.crit, Pc.atPop, canAcq, ownerAfterRel]
+    | grind [Pc.atPop]
     | simp
 
 theorem wire_step_flush_ctx (cfg : Cfg) (s s' : Sys) (t : Tid) (hl : LockInv s) (hw : WireInv s)
     (hs : step cfg s t = some s') :
     ∀ c, (cur s').dctx = some c → (cur s').flushing = true → c.imm = false ∧ c.open0 = true := by
-  wire_pre hl hw s t
+  have h1t := hl.crit_owner t
+  have hd := hl.depth_ok
+  have hz := hl.net_zero t
+  have hn := hl.nt_slot
+  wire_pre hw
   step_cases hs hpc htd
+  all_goals cur_simp s t h1t hd hpc
   all_goals
-    grind [cur, upd, Pc.crit, UPc.crit, NPc.crit, Pc.dctx, Pc.flushing, canAcq, ownerAfterRel]
+    grind [Pc.dctx, Pc.flushing]
 
 theorem wire_step_imm_wire (cfg : Cfg) (s s' : Sys) (t : Tid) (hl : LockInv s) (hw : WireInv s)
     (hs : step cfg s t = some s') :
     ∀ c, (cur s').dctx = some c → c.imm = true → s'.wire = c.wire0 := by
-  wire_pre hl hw s t
+  have h1t := hl.crit_owner t
+  have hd := hl.depth_ok
+  have hz := hl.net_zero t
+  have hn := hl.nt_slot
+  wire_pre hw
   have w9 := hw.imm_wire
   step_cases hs hpc htd
+  all_goals cur_simp s t h1t hd hpc
   all_goals
-    grind [cur, upd, Pc.crit, UPc.crit, NPc.crit, Pc.dctx, Pc.flushing, canAcq, ownerAfterRel]
+    grind [Pc.dctx, Pc.flushing]
 
 theorem wire_step_snap (cfg : Cfg) (s s' : Sys) (t : Tid) (hl : LockInv s) (hw : WireInv s)
     (hs : step cfg s t = some s') :
     ∀ c, (cur s').dctx = some c → c.imm = false → c.open0 = true → ∀ p ∈ c.snap,
       p ∈ sentPkts s'.wire ∨
         ((cur s').flushing = true ∧ (p ∈ (cur s').popped ∨ p ∈ s'.queue)) := by
-  wire_pre hl hw s t
+  have h1t := hl.crit_owner t
+  have hd := hl.depth_ok
+  have hz := hl.net_zero t
+  have hn := hl.nt_slot
+  wire_pre hw
   have w11 := hw.snap
   step_cases hs hpc htd
+  all_goals cur_simp s t h1t hd hpc
   all_goals
-    grind [cur, upd, Pc.crit, UPc.crit, NPc.crit, Pc.dctx, Pc.flushing, Pc.popped, Pc.needsOpen,
-      canAcq, ownerAfterRel, sentPkts_snoc0, sentPkts_snoc1]
+    grind [Pc.dctx, Pc.flushing, Pc.popped, Pc.needsOpen,
+      sentPkts_snoc0, sentPkts_snoc1]
 
 theorem wire_step_mem_issued (cfg : Cfg) (s s' : Sys) (t : Tid) (hl : LockInv s) (hw : WireInv s)
     (hs : step cfg s t = some s') :
@@ -151,11 +195,8 @@ theorem wire_step_nodup (cfg : Cfg) (s s' : Sys) (t : Tid) (hl : LockInv s) (hw 
     (hf : ∀ p ∈ pktsOf (s.thr t).todo, p ∉ s.issued)
     (hs : step cfg s t = some s') :
     (sentPkts s'.wire ++ (cur s').infl ++ s'.queue ++ s'.failed).Nodup := by
-  have hm := hw.mem_issued
-  have hn := hw.nodup
   obtain ⟨ev, -, he, -, -⟩ := step_eff cfg s s' t hl hs
-  cases ev <;> simp only [Eff, SameQ, Clean] at he
-  all_goals grind [List.nodup_append, sentPkts_snoc0, sentPkts_snoc1, pktsOf, Op.pkts]
+  exact nodup_of_eff s s' t ev hw.mem_issued hw.nodup hf he
 
 theorem wire_step (cfg : Cfg) (s s' : Sys) (t : Tid) (hl : LockInv s) (hw : WireInv s)
     (hf : ∀ p ∈ pktsOf (s.thr t).todo, p ∉ s.issued)
